@@ -79,6 +79,10 @@ def run(ctx, built):
     stream_main_column(ctx)
     import e2e_streams as ES
     ES.stream_sampleD(ctx, built, ctx.scale(10, 100))
+    # the plan is a function of its inputs in every interpreter: the default-strategy plans (full and sampled forest, main column by name / index) across
+    # fresh processes with different string-hash seeds
+    import importlib
+    importlib.import_module("props.c05").stream_processes(ctx, only=["default", "default-sampled", "main-name", "main-index-0"], runs=ctx.scale(2, 6))
 
 
 def search(ctx, seeds):
